@@ -69,6 +69,11 @@ CLAIMS = {
         'frames show the order setting and the source are untouched (order changes affect only later values). Array writers: length*sizeof(T) bytes, bounded to 3 elements.',
    note=TB + 'write()/read() are ghost wire stubs (the real ones are Array<byte>::append, fwrite/fread, send/recv). Host little-endian. Strings and File::operator>>(String&) not covered.',
    technique='CBMC code contracts (DFCC) per template instantiation, ghost-index byte specification'),
+ 'C17': dict(level='proof', design='6 C17',
+   text='Only what asl itself computes: one turn of TextFile::readLine for lines of any length across the 255-byte chunks (buffer handed to fgets inside the capacity, indices in range, LF and one preceding CR cut, progress or exit each turn); '
+        'one turn of the UTF-16LE / UTF-16BE loops of text() (unit assembly in the file byte order, CR LF folding never shrinks an empty array); the plain branch of text() for every file size and read result.',
+   note=TB + 'fgets/fread are stubs with their ISO C contracts; Strings/Arrays are ghost lengths with the C03/C01 contracts. NOT decided (theorems about the OS or outside the contract language): that written bytes come back from disk, size(), append/reopen histories, lines(), Directory copy/move, files containing NUL bytes.',
+   technique='CBMC code contracts on extracted loop bodies with libc/OS calls as contract stubs'),
  'C19': dict(level='proof', design='6 C19',
    text='For EVERY day of years 0001..9999 (one symbolic day number): yearFromTime returns the Gregorian year containing it, the month search and weekday formula of calc() give the unique '
         'year/month/day/weekday, construct() of valid fields is 86400 s times the day number they denote (so fields -> instant -> fields is the identity at day granularity), the floating '
